@@ -380,3 +380,87 @@ Theorem timeline_fresh_for_first_poller : forall (x : xdb) (id : str) (c : conte
   exists o2', o2 = MoTimeline (Some t) true :: o2'.
 Proof. exact racing_restore_timeline_fresh_lemma. Qed.
 Print Assumptions timeline_fresh_for_first_poller.
+
+(* ---- seventh wave: the view of the transaction a snapshot is taken in; listeners that wait ---- *)
+From Storage Require Import Db.SnapView Db.SnapViewProofs.
+
+(* SnapshotInTx is a function of the view of the transaction it is given.  Db.Snapshot and
+   SnapshotInTx in a transaction that begins at the moment of the call: the view is what is
+   committed now ... *)
+Theorem snapshot_now_is_view : forall d : db,
+  snapshot_step d SKPlain = snapshot_of_view d (live d) /\ snapshot_step d SKInView = snapshot_of_view d (live d).
+Proof. exact snapshot_now_is_view_lemma. Qed.
+Print Assumptions snapshot_now_is_view.
+
+(* ... in a write transaction: the file is the snapshot of what was committed when the transaction
+   began, whatever the transaction itself has written before / writes after the call, committed
+   or rolled back (its own writes reach the bolt file at commit) ... *)
+Theorem snapshot_in_update_is_view : forall (d : db) (before after : list wop) (commit : bool),
+  files (fst (snapshot_step d (SKInUpdate before after commit))) = files (fst (snapshot_of_view d (live d)))
+  /\ snd (snapshot_step d (SKInUpdate before after commit)) = snd (snapshot_of_view d (live d)).
+Proof. exact snapshot_in_update_is_view_lemma. Qed.
+Print Assumptions snapshot_in_update_is_view.
+
+(* ... in a read transaction that was opened BEFORE other goroutines ran the transactions [txs]
+   (any number, committed or rolled back): exactly the view goes into the file; the later commits
+   are in the live database and not in the file. *)
+Theorem stale_snapshot_holds_the_view : forall (d : db) (txs : list (list wop * bool)),
+  let d' := fst (stale_snapshot d txs) in
+  let id := snd (stale_snapshot d txs) in
+  id = fresh (uuids d)
+  /\ files d' = files d ++ [mark id (live d)]
+  /\ live d' = commit_all (live d) txs
+  /\ uuids d' = S (uuids d) /\ listeners d' = listeners d /\ fired d' = fired d /\ idf_calls d' = idf_calls d.
+Proof. exact stale_snapshot_lemma. Qed.
+Print Assumptions stale_snapshot_holds_the_view.
+
+(* It is the snapshot taken when the View began followed by the other transactions, so every
+   theorem above applies to histories with such snapshots ... *)
+Theorem stale_snapshot_commutes : forall (d : db) (txs : list (list wop * bool)),
+  stale_snapshot d txs = (run (fst (snapshot_step d SKInView)) (tx_ops txs), snd (snapshot_step d SKInView)).
+Proof. exact stale_snapshot_commutes_lemma. Qed.
+Print Assumptions stale_snapshot_commutes.
+
+(* ... in particular: pre ; View begins ; txs of other goroutines ; SnapshotInTx in the View ; post ;
+   restore of that file  gives the view of that transaction plus the markers, and GetSnapshotId
+   the id the call returned. *)
+Theorem stale_restore_reproduces_view : forall (d0 : db) (pre : list op) (txs : list (list wop * bool)) (post : list op),
+  let view := live (run d0 pre) in
+  let id := snd (stale_snapshot (run d0 pre) txs) in
+  live (stale_restored d0 pre txs post) = mark id view
+  /\ get_snapshot_id (live (stale_restored d0 pre txs post)) = Some id.
+Proof. exact stale_restore_reproduces_view_lemma. Qed.
+Print Assumptions stale_restore_reproduces_view.
+
+(* the history layer the correspondence driver runs is a history of Db/RestoreMeta.v *)
+Theorem snapshot_view_erasure : forall (caps : nat -> nat) (ops : list vop) (v : vdb),
+  vm (vrun caps v ops) = mrun caps (vm v) (flat_map verase ops).
+Proof. exact vrun_erase_lemma. Qed.
+Print Assumptions snapshot_view_erasure.
+
+(* Restore listeners, each started in a goroutine of its own: for every list of listeners - any
+   of them blocking for good or waiting for any other, registered earlier or later, cycles
+   included - and every schedule, every registered listener has been started ... *)
+Theorem restore_starts_every_listener : forall (ls : list lkind) (sched : list nat),
+  all_started (lrun ls (spawn_all ls) sched) /\ length (lrun ls (spawn_all ls) sched) = length ls.
+Proof. exact listeners_all_started_lemma. Qed.
+Print Assumptions restore_starts_every_listener.
+
+(* ... only listeners that can return have returned ... *)
+Theorem listeners_return_only_when_served : forall (ls : list lkind) (sched : list nat) (i : nat),
+  nth_error (lrun ls (spawn_all ls) sched) i = Some LDone -> Returns ls i.
+Proof. exact listeners_done_sound_lemma. Qed.
+Print Assumptions listeners_return_only_when_served.
+
+(* ... and a listener that can return is never kept from it by the others: from every state in
+   which all are started some schedule makes it return (the order of registration plays no role). *)
+Theorem returning_listener_returns : forall (ls : list lkind) (i : nat), Returns ls i ->
+  forall st, all_started st -> length st = length ls ->
+  exists sched, nth_error (lrun ls st sched) i = Some LDone.
+Proof. exact listeners_returning_complete_lemma. Qed.
+Print Assumptions returning_listener_returns.
+
+(* what the driver prints is sound for [Returns] *)
+Theorem returnsb_is_returns : forall (fuel : nat) (ls : list lkind) (i : nat), returnsb fuel ls i = true -> Returns ls i.
+Proof. exact returnsb_sound. Qed.
+Print Assumptions returnsb_is_returns.
